@@ -263,6 +263,39 @@ func c01R3(c *Ctx) {
 	if found == 0 {
 		c.R.Fail(r, "fanout ack handler", c.Pos(run.Pos()), "no Message.Ack call found in FanoutNode.Run's handlers (shape changed)")
 	}
+	// a branch that gives up on ctx.Done() must nack its clone on every path
+	// (it never counts as an ack share)
+	msgNack := Set(c.Fn(r, pStream, "(*Message).Nack"))
+	ctxDone := c.W.ExtMethod("context", "Context", "Done")
+	for _, fn := range kit.WithAnon(run)[1:] {
+		for _, sel := range kit.Selects(fn) {
+			hasSend := false
+			for _, st := range sel.States {
+				if st.Dir == types.SendOnly {
+					hasSend = true
+				}
+			}
+			if !hasSend {
+				continue
+			}
+			for i, st := range sel.States {
+				call, ok := st.Chan.(*ssa.Call)
+				if !ok || st.Dir != types.RecvOnly || kit.CalleeOf(call.Common()) != ctxDone {
+					continue
+				}
+				g := kit.NewGates()
+				for _, nk := range kit.CallsTo(fn, msgNack) {
+					g.AddInstr(nk, "newMsg.Nack")
+				}
+				for _, e := range kit.SelectArmEdges(sel, i) {
+					ok2, _ := kit.AllExitsFromEdge(e, false, kit.ExitSpec{Gates: g})
+					// also: no conditional in front of the nack (the nack dominates every exit from the arm)
+					c.R.Check(ok2, r, "fanout branch: ctx.Done arm nacks the clone on every path", c.Pos(sel.Pos()), "every exit from the ctx.Done() arm passes Message.Nack",
+						"a path leaves the branch goroutine's ctx.Done() arm without nacking the undelivered clone: the branch silently stops counting and the remaining branches can ack the original", true)
+				}
+			}
+		}
+	}
 }
 
 func c01CounterInit(c *Ctx, r string, run *ssa.Function, cell ssa.Value, outF *types.Var) {
@@ -292,6 +325,23 @@ func c01CounterInit(c *Ctx, r string, run *ssa.Function, cell ssa.Value, outF *t
 				good++
 			}
 		}
+	}
+	// every other use of the counter is the single decrement inside the ack handler
+	addInt32 := c.W.ExtObj("sync/atomic", "AddInt32")
+	msgAck := Set(c.W.LookupFunc(pStream, "(*Message).Ack"))
+	for _, u := range kit.CellUses(a) {
+		if st, ok := u.Instr.(*ssa.Store); ok && st.Addr == ssa.Value(a) && u.Fn == a.Parent() {
+			continue // initialisation, checked below
+		}
+		okUse := false
+		if call, ok := u.Instr.(*ssa.Call); ok && kit.CalleeOf(call.Common()) == addInt32 && len(kit.CallsTo(u.Fn, msgAck)) > 0 {
+			okUse = true
+		}
+		if _, ok := u.Instr.(*ssa.DebugRef); ok {
+			continue
+		}
+		c.R.Check(okUse, r, "fanout: counter used only by the ack handler's decrement ("+kit.FuncKey(u.Fn)+")", c.Pos(posOf(u.Instr)), "atomic decrement in the ack handler",
+			"the remaining-acks counter is read or modified outside the ack handler's single decrement: a branch can reduce the number of acks owed without having acked", true)
 	}
 	c.R.Check(stores >= 1 && stores == good, r, "fanout: counter initialised to len(n.out)", c.Pos(a.Pos()),
 		"every store to the counter is int32(len(n.out))", "the remaining-acks counter is initialised from something other than len(n.out)", true)
@@ -742,5 +792,57 @@ func c01R8(c *Ctx) {
 			}
 		}
 		c.Dominated(r, "v2 sendToDLQ: stored count only after the DLQ write call succeeded", targets, g, "the task.Do success edge")
+		// the stored count is a PREFIX length: it is incremented only on the
+		// edge where recordStatuses[count].Flag == RecordFlagAck, indexed by the
+		// count itself (Worker.Nack acks positions[:n]).
+		flagF := c.Field(r, pFunnel, "RecordStatus", "Flag")
+		ackConst := c.W.LookupObj(pFunnel, "RecordFlagAck")
+		nInc := 0
+		for _, b := range sd.Blocks {
+			for _, in := range b.Instrs {
+				ph, ok := in.(*ssa.Phi)
+				if !ok {
+					continue
+				}
+				isRet := false
+				for _, ret := range kit.Returns(sd) {
+					if len(ret.Results) == 2 && kit.RetVal(ret, 0) == ssa.Value(ph) {
+						isRet = true
+					}
+				}
+				if !isRet {
+					continue
+				}
+				for _, e := range ph.Edges {
+					inc, ok := e.(*ssa.BinOp)
+					if !ok || inc.Op != token.ADD {
+						continue
+					}
+					nInc++
+					gp := kit.NewGates().AddEdges(kit.CmpEdges(sd, func(b *ssa.BinOp) (bool, bool) {
+						if b.Op != token.EQL && b.Op != token.NEQ {
+							return false, false
+						}
+						x, y := b.X, b.Y
+						if isConstObj(x, ackConst) {
+							x, y = y, x
+						}
+						if !isConstObj(y, ackConst) || !kit.IsFieldLoad(x, flagF) {
+							return false, false
+						}
+						base, _ := kit.FieldBase(x)
+						ia, ok := base.(*ssa.IndexAddr)
+						if !ok || ia.Index != ssa.Value(ph) {
+							return false, false
+						}
+						return true, b.Op == token.EQL
+					}), "recordStatuses[count].Flag == RecordFlagAck")
+					c.Dominated(r, "v2 sendToDLQ: stored count is the acked PREFIX length", []ssa.Instruction{inc}, gp, "the recordStatuses[count].Flag==RecordFlagAck edge indexed by the count itself")
+				}
+			}
+		}
+		if nInc == 0 {
+			c.R.Fail(r, "v2 sendToDLQ: prefix counter", c.Pos(sd.Pos()), "the returned count is not a loop counter incremented under the prefix test (shape changed)")
+		}
 	}
 }
